@@ -120,6 +120,8 @@ func (pool *CollectorPool) waitStop() {
 	}
 
 	pool.ctxCanceller()
+	// wake listenRoutine up from Accept
+	pool.listener.Close()
 	pool.wg.Wait()
 	atomic.StoreInt32(&pool.stopped, 1)
 }
